@@ -245,9 +245,159 @@ def _variants():
         V("helpers-swapped", [replace_expr(BJ, "Bijections.simion_and_schmidt", "Bijections._simion_and_schmidt_inv(perm, n)", "Bijections._simion_and_schmidt(perm, n)"),
                               replace_expr(BJ, "Bijections.simion_and_schmidt", "Bijections._simion_and_schmidt(perm, n)", "Bijections._simion_and_schmidt_inv(perm, n)", which=2)], "fire", "C12-G1"),
         V("guard-pattern-213", replace_expr(BJ, "Bijections.simion_and_schmidt", "Perm((0, 2, 1))", "Perm((1, 0, 2))"), "fire", "C12-G1"),
+        V("stack-sort-right-unsorted", replace_stmt(PE, "Perm._stack_sort", "n_lis.extend(Perm._stack_sort(perm_slice[max_i + 1:n]))", "n_lis.extend(perm_slice[max_i + 1:n])"), "fire", "C12-R1"),
+        V("bubble-sort-right-sorted", replace_stmt(PE, "Perm._bubble_sort", "n_lis.extend(perm_slice[max_i + 1:n])", "n_lis.extend(Perm._bubble_sort(perm_slice[max_i + 1:n]))"), "fire", "C12-R1"),
+        V("bubble-sort-first-branch-recursive", replace_stmt(PE, "Perm._bubble_sort", "n_lis = perm_slice[1:n]", "n_lis = Perm._bubble_sort(perm_slice[1:n])"), "fire", "C12-R1"),
+        V("stack-sort-off-by-one-slice", replace_expr(PE, "Perm._stack_sort", "perm_slice[max_i + 1:n]", "perm_slice[max_i:n]"), "fire", "C12-R1"),
+        V("stack-sort-pivot-by-position", replace_expr(PE, "Perm._stack_sort", "pos_elem[1]", "pos_elem[0]"), "fire", "C12-R1"),
+        V("pop-stack-smaller", replace_expr(PE, "Perm.pop_stack_sort", "num > stack[0]", "num < stack[0]"), "fire", "C12-R1"),
+        V("pop-stack-no-clear", replace_stmt(PE, "Perm.pop_stack_sort", "stack.clear()", ""), "fire", "C12-R1"),
+        V("pop-stack-no-final-flush", replace_stmt(PE, "Perm.pop_stack_sort", "result.extend(stack)", "", ), "fire-or-undecided", "C12-R1"),
         # silent
         V("reformat-bijections", reformat_only(BJ), "silent"),
         V("guard-not-avoids", replace_expr(BJ, "Bijections.simion_and_schmidt", "perm.contains(Perm((0, 1, 2)))", "not perm.avoids(Perm((0, 1, 2)))"), "silent"),
         V("rename-counter", rename_local(PE, "Perm.count_stack_sorts", "num_sorts", "passes"), "silent"),
         V("sortable-eq-identity", replace_expr(PE, "Perm.stack_sortable", "self.stack_sort().is_increasing()", "self.stack_sort() == Perm.identity(len(self))"), "silent"),
     ]
+
+
+# ------------------------------------------------------------------ R1: recursive definitions of the sorting operators
+
+
+def rule_r1(ctx: Ctx) -> None:
+    """West's recursive characterisations are the definitions of one pass: S(L n R) = S(L) S(R) n for a stack,
+    B(L n R) = B(L) R n for bubble sort (n the largest entry).  The helpers are compared with them, branch by branch."""
+    repo = ctx.repo
+    for name, right_sorted in (("_stack_sort", True), ("_bubble_sort", False)):
+        f = repo.method("Perm", name)
+        if f is None:
+            ctx.note(f"C12-R1: Perm.{name} not present")
+            continue
+        ctx.run(check_recursive_sort, ctx, f, right_sorted)
+    ps = repo.method("Perm", "pop_stack_sort")
+    if ps is not None:
+        ctx.run(check_pop_stack, ctx, ps)
+
+
+def check_recursive_sort(ctx: Ctx, f: FuncInfo, right_sorted: bool) -> None:
+    from ..core import flow_env
+
+    sl = f.params[0]
+    env = flow_env(f)
+    n = next((k for k, v in env.items() if unparse(v) == f"len({sl})"), None)
+    if n is None:
+        raise AnalysisError(f"{f.where}: length local not found")
+    # max position/value
+    mx = [st for st in f.body if isinstance(st, ast.Assign) and isinstance(st.targets[0], ast.Tuple) and isinstance(st.value, ast.Call) and call_name(st.value) == ("max",)]
+    if len(mx) != 1 or not unparse(mx[0].value).startswith(f"max(enumerate({sl}), key="):
+        raise AnalysisError(f"{f.where}: selection of the largest entry not recognised")
+    mi, mv = [unparse(e) for e in mx[0].targets[0].elts]
+    key = next((k.value for k in mx[0].value.keywords if k.arg == "key"), None)
+    if not (isinstance(key, ast.Lambda) and unparse(key.body) == f"{key.args.args[0].arg}[1]"):
+        ctx.violation("C12-R1", f, mx[0], "the pivot is not the entry of largest *value* (key must select the value of each (position, value) pair)")
+        return
+    base = [st for st in f.body if isinstance(st, ast.If) and unparse(st.test) in (f"{n} in (0, 1)", f"{n} <= 1", f"{n} < 2")]
+    if not (base and unparse(base[0].body[0]) == f"return {sl}"):
+        raise AnalysisError(f"{f.where}: base case not recognised")
+    chain = [st for st in f.body if isinstance(st, ast.If) and st not in base]
+    if len(chain) != 1:
+        raise AnalysisError(f"{f.where}: case analysis on the position of the maximum not recognised")
+    acc = None
+    cases: Dict[str, List[str]] = {}
+    cur: Optional[ast.If] = chain[0]
+    rec = f"Perm.{f.name}"
+
+    def norm(stmts) -> List[str]:
+        out = []
+        for st in stmts:
+            t = unparse(st).replace(f"self.{f.name}", rec).replace(f"cls.{f.name}", rec)
+            out.append(t)
+        return out
+
+    while cur is not None:
+        cases[unparse(cur.test)] = norm(cur.body)
+        if len(cur.orelse) == 1 and isinstance(cur.orelse[0], ast.If):
+            cur = cur.orelse[0]
+        else:
+            cases["else"] = norm(cur.orelse)
+            cur = None
+    tail = [unparse(st) for st in f.body[f.body.index(chain[0]) + 1:]]
+    left = f"{rec}({sl}[0:{mi}])"
+    right_general = f"{rec}({sl}[{mi} + 1:{n}])" if right_sorted else f"{sl}[{mi} + 1:{n}]"
+    want = {
+        f"{mi} == 0": [[f"n_lis = {rec}({sl}[1:{n}])"] if right_sorted else [f"n_lis = {sl}[1:{n}]"]],
+        f"{mi} == {n} - 1": [[f"n_lis = {rec}({sl}[0:{n} - 1])"]],
+        "else": [[f"n_lis = {left}", f"n_lis.extend({right_general})"]],
+    }
+    accname = None
+    for k, bodies in want.items():
+        got = cases.get(k)
+        if got is None:
+            raise AnalysisError(f"{f.where}: branch `{k}` not found")
+        if accname is None and got and " = " in got[0]:
+            accname = got[0].split(" = ")[0]
+        exp = [[x.replace("n_lis", accname or "n_lis") for x in b] for b in bodies]
+        if got in exp:
+            ctx.ok("C12-R1", f.where, f"branch {k}: {'; '.join(got)}", f.node, f)
+        else:
+            side = "S(L) S(R) n" if right_sorted else "B(L) R n"
+            ctx.violation("C12-R1", f, chain[0], f"{f.name}, branch `{k}`: computes `{'; '.join(got)}`; one pass is {side} with L, R the entries before/after the largest entry n: expected `{'; '.join(exp[0])}`")
+    if tail == [f"{accname}.append({mv})", f"return {accname}"]:
+        ctx.ok("C12-R1", f.where, "the largest entry leaves last", f.node, f)
+    else:
+        ctx.violation("C12-R1", f, f.node, f"after the recursive part the function does `{'; '.join(tail)}`; the largest entry must be appended last and the result returned")
+
+
+def check_pop_stack(ctx: Ctx, f: FuncInfo) -> None:
+    """Pop-stack: push while the next entry is smaller than the top; otherwise empty the whole stack
+    (top first) to the output, then push; finally empty the stack."""
+    body = f.body
+    loops = [st for st in body if isinstance(st, ast.For)]
+    if len(loops) != 1 or unparse(loops[0].iter) != f.params[0]:
+        raise AnalysisError(f"{f.where}: input loop not recognised")
+    lp = loops[0]
+    x = unparse(lp.target)
+    inits = {unparse(st.target if isinstance(st, ast.AnnAssign) else st.targets[0]): unparse(st.value) for st in body if isinstance(st, (ast.Assign, ast.AnnAssign)) and st.value is not None}
+    stack = next((k for k, v in inits.items() if v in ("collections.deque()", "deque()", "[]") and any(f"{k}.appendleft" in unparse(s) or f"{k}.append(" in unparse(s) for s in lp.body)), None)
+    out = next((k for k in inits if k != stack and inits[k] == "[]"), None)
+    if stack is None or out is None:
+        raise AnalysisError(f"{f.where}: stack/output not recognised")
+    pushes = [unparse(s) for s in lp.body if isinstance(s, ast.Expr)]
+    top = f"{stack}[0]" if f"{stack}.appendleft({x})" in pushes else f"{stack}[-1]"
+    ifs = [s for s in lp.body if isinstance(s, ast.If)]
+    if len(ifs) != 1:
+        raise AnalysisError(f"{f.where}: pop condition not recognised")
+    t = unparse(ifs[0].test)
+    good_tests = {f"{stack} and {x} > {top}", f"{stack} and {top} < {x}", f"len({stack}) > 0 and {x} > {top}"}
+    if t not in good_tests:
+        if top in t and x in t:
+            ctx.violation("C12-R1", f, ifs[0], f"the stack is emptied when `{t}`; a pop-stack must be emptied exactly when the next entry is larger than the top (`{stack} and {x} > {top}`)")
+            return
+        raise AnalysisError(f"{f.where}: pop condition `{t}` not recognised")
+    popped = [unparse(s) for s in ifs[0].body]
+    order_ok = popped == [f"{out}.extend({stack})", f"{stack}.clear()"] if top.endswith("[0]") else popped == [f"{out}.extend(reversed({stack}))", f"{stack}.clear()"]
+    if not order_ok:
+        ctx.violation("C12-R1", f, ifs[0], f"popping does `{'; '.join(popped)}`; the whole stack must go to the output, top first, and the stack must be emptied")
+        return
+    if ifs[0] is not lp.body[0] or len(lp.body) != 2:
+        raise AnalysisError(f"{f.where}: loop body shape")
+    after = [unparse(s) for s in body[body.index(lp) + 1:]]
+    final = f"{out}.extend({stack})" if top.endswith("[0]") else f"{out}.extend(reversed({stack}))"
+    if after[:1] == [final] and after[-1] in (f"return Perm({out})", f"return Perm(tuple({out}))"):
+        ctx.ok("C12-R1", f.where, "pop-stack pass: push while smaller than the top, else empty the stack top-first; flush at the end", lp, f)
+    else:
+        ctx.violation("C12-R1", f, body[-1], f"after the input is read the function does `{'; '.join(after)}`; the remaining stack must be flushed top first and the output returned")
+
+
+_OLD_RUN = run
+
+
+def run(ctx: Ctx) -> None:  # noqa: F811
+    _OLD_RUN(ctx)
+    ctx.run(rule_r1, ctx)
+
+
+FLOORS["C12-R1"] = 9
+EXPLANATION = EXPLANATION.replace("NOT decided: that _stack_sort, pop_stack_sort, _bubble_sort, _quick_sort compute one pass of their device,",
+                                  "(d) the stack-sort and bubble-sort helpers are West's recursive definitions of one pass (S(LnR) = S(L)S(R)n, B(LnR) = B(L)Rn) and pop_stack_sort is the "
+                                  "push/empty-all automaton of a pop stack (R1, branch-by-branch template comparison). NOT decided: that _quick_sort computes one pass of its device,")
